@@ -7,11 +7,22 @@ from ..framework import Exploration, Violation
 ASSUMPTIONS = ["one fresh interpreter per configuration (PYSNARK_BACKEND value, set of pre-imported backend modules, set of modules made "
                "unloadable by an import-blocking finder, IPython flag through a get_ipython stub); it imports pysnark.runtime and reports "
                "backend_name, the module receiving the constraints, get_modulus(), the interface attributes and the messages printed",
-               "the libsnark modules cannot be loaded in this sandbox (always in the unloadable set); flatbuffers is the stand-in; the "
-               "qaptools binaries are failing stubs: CPython's import machinery is modelled in Model/Select.lean and validated only here"]
+               "the real libsnark extension is not installed. Two classes of configuration: (i) the sandbox as it is: the libsnark modules "
+               "are in the unloadable set; (ii) `libsnark_stub`: harness/stubs (a recording STAND-IN package `libsnark`, pure Python, "
+               "which is NOT libsnark: it keeps the protoboard as data and logs which proof-system entry points are called, zk_* = "
+               "Pinocchio family, zkgg_* = Groth16 family, and tags the keys/proofs it hands out) is put on PYTHONPATH of the child only; "
+               "pysnark/libsnark/backend.py and backendgg.py are then imported and selected by pysnark's own code, a small circuit is "
+               "traced and the proving step is driven the way runtime.final() drives it (autoprove, then the keygen / prove / verify "
+               "operations of process_snark); oracle: the family of entry points driven and the tags in pysnark_vk / pysnark_log are "
+               "those of the proof system the reported backend name stands for (libsnark: Pinocchio, libsnarkgg: Groth16), never both. "
+               "What real libsnark does with the calls is outside this check",
+               "flatbuffers is the stand-in; the qaptools binaries are failing stubs: CPython's import machinery is modelled in "
+               "Model/Select.lean and validated only here"]
 PARTIAL = ["C19_name_identifies_partial excludes configurations with a pre-imported derived backend module (finding C19-derived-preimport)"]
 INTERFACE = ["privval", "pubval", "zero", "one", "fieldinverse", "get_modulus", "add_constraint", "prove"]
 NEVER = ["pysnark.libsnark.backend", "pysnark.libsnark.backendgg"]
+PROOF_SYSTEM = {"libsnark": "pinocchio", "libsnarkgg": "groth16"}       # what each registry name stands for (README)
+STUB_LOG = "libsnark_stub_calls.jsonl"
 EDGES = {"pysnark.zkinterface.backendbellman": ["pysnark.zkinterface.backend"],
          "pysnark.zkinterface.backendbulletproofs": ["pysnark.zkinterface.backend"],
          "pysnark.libsnark.backendgg": ["pysnark.libsnark.backend"]}
@@ -41,13 +52,41 @@ try:
     if R.backend is not None:
         out["modulus"] = R.backend.get_modulus() if hasattr(R.backend, "get_modulus") else None
         out["missing"] = [a for a in %r if not callable(getattr(R.backend, a, None))]
+    if cfg.get("libsnark_stub") and R.backend is not None and R.backend.__name__.startswith("pysnark.libsnark."):
+        # drive the proving step as runtime.final() does: the exit hook with autoprove, then the three process_snark operations
+        drive = {}
+        with contextlib.redirect_stdout(buf), contextlib.redirect_stderr(buf):
+            from pysnark.runtime import PubVal, PrivVal
+            x = PubVal(3); y = PrivVal(4); z = x * y; z.assert_eq(12)
+            for step, (auto, op) in enumerate([(True, None), (False, "keygen"), (False, "prove"), (False, "verify")]):
+                R.autoprove = auto; R.operation = op; R.namevals = {}
+                try:
+                    R.final(); drive[op or "autoprove"] = "ok"
+                except BaseException as e:
+                    drive[op or "autoprove"] = type(e).__name__ + ": " + str(e)[:100]
+        R.autoprove = False
+        out["drive"] = drive
+        try:
+            out["calls"] = [json.loads(l) for l in open(%r)]
+        except OSError:
+            out["calls"] = []
+        tags = {}
+        for fn, path in (("pysnark_vk", ["system"]), ("pysnark_ek", ["system"]), ("pysnark_log", ["proof", "system"]), ("pysnark_pk", ["system"]),
+                         ("pysnark_proof", ["system"])):
+            try:
+                v = json.load(open(fn))
+                for k in path: v = v[k]
+                tags[fn] = v
+            except Exception as e:
+                tags[fn] = None
+        out["tags"] = tags
 except BaseException as e:
     out["error"] = type(e).__name__
     out["errmsg"] = str(e)[:200]
 out["stdout"] = buf.getvalue()[-1500:]
 print("@@" + json.dumps(out))
 os._exit(0)
-''' % (INTERFACE,)
+''' % (INTERFACE, STUB_LOG)
 
 
 def closure_unloadable(unl):
@@ -79,7 +118,9 @@ def run_one(cfg):
         if cfg["env"] is not None:
             env["PYSNARK_BACKEND"] = cfg["env"]
         env["QAPTOOLS_BIN"] = common.stub_dir("qaptools")
-        env["PYTHONPATH"] = os.pathsep.join([os.path.join(common.HARNESS, "fbshim"), common.REPO])
+        env["PYTHONPATH"] = os.pathsep.join([os.path.join(common.HARNESS, "fbshim"), common.REPO] +
+                                            ([common.stub_dir("")] if cfg.get("libsnark_stub") else []))     # stand-in `libsnark`: child only
+        env.pop("LIBSNARK_STUB_LOG", None)
         pr = subprocess.run([common.PY, "-c", CHILD, json.dumps(cfg)], cwd=d, env=env, capture_output=True, text=True, timeout=120)
         for l in pr.stdout.splitlines():
             if l.startswith("@@"):
@@ -102,7 +143,24 @@ def gen(rnd, registry, n, exhaustive):
         cfgs.append({"env": rnd.choice(names), "pre": [m], "unloadable": NEVER, "ipython": False})
     cfgs.append({"env": None, "pre": [], "unloadable": NEVER, "ipython": True})
     cfgs.append({"env": "bogus", "pre": [], "unloadable": NEVER, "ipython": True})
+    # the libsnark stand-in importable: every environment value alone; the libsnark modules pre-imported (base, derived, both
+    # orders) with and without an environment value; other backends pre-imported while the environment names a libsnark one
+    for e in envs:
+        cfgs.append({"env": e, "pre": [], "unloadable": [], "ipython": False, "libsnark_stub": True})
+    for pre in ([NEVER[0]], [NEVER[1]], NEVER, NEVER[::-1]):
+        for e in (None, "libsnark", "libsnarkgg", rnd.choice(names)):
+            cfgs.append({"env": e, "pre": list(pre), "unloadable": [], "ipython": False, "libsnark_stub": True})
+    for e in ("libsnark", "libsnarkgg"):
+        cfgs.append({"env": e, "pre": [rnd.choice(loadable_mods)], "unloadable": [], "ipython": False, "libsnark_stub": True})
+        cfgs.append({"env": e, "pre": [], "unloadable": [rnd.choice(loadable_mods)], "ipython": rnd.random() < 0.5, "libsnark_stub": True})
+    n += 30
     while len(cfgs) < n:
+        if rnd.random() < 0.3:
+            pre = rnd.sample(mods, rnd.choice([0, 0, 1, 1, 2]))
+            unl = set(rnd.sample(mods, rnd.choice([0, 0, 1, 2, 3]))) - set(closure_pre(pre))
+            cfgs.append({"env": rnd.choice(envs + ["libsnark", "libsnarkgg"]), "pre": pre, "unloadable": sorted(unl),
+                         "ipython": rnd.random() < 0.1, "libsnark_stub": True})
+            continue
         k = rnd.choice([0, 0, 1, 1, 2])
         pre = rnd.sample(loadable_mods, k)
         unl = set(NEVER) | set(rnd.sample(loadable_mods, rnd.choice([0, 0, 1, 2, 3])))
@@ -140,6 +198,7 @@ def explore(ctx, extended=False, focus=None):
         ex.distinct.add(json.dumps(c, sort_keys=True))
         ex.count("env:" + ("unset" if c["env"] is None else "known" if c["env"] in name_to_mod else "unknown"))
         ex.count(f"npre:{len(c['pre'])}")
+        ex.count("libsnark:" + ("stand-in-importable" if c.get("libsnark_stub") else "not-installed"))
         mf = m.split("|")
         unknown_msg = "unknown backend in environment variables" in o.get("stdout", "")
         loaderr = sorted(l.split("Error loading backend ")[1].split(":")[0] for l in o.get("stdout", "").splitlines() if "Error loading backend" in l)
@@ -194,6 +253,28 @@ def explore(ctx, extended=False, focus=None):
                                                f"(pre-imported: {c['pre']})", rep))
         else:
             ex.violations.append(Violation({"dev": "unregistered-name"}, f"reported name {name!r} is not in the registry", rep))
+        # (d) the proof system driven is the one the reported name stands for (libsnark stand-in only)
+        if "calls" in o:
+            fams = sorted({x.get("system") for x in o["calls"]})
+            fns = sorted({x.get("fn") for x in o["calls"]})
+            want = PROOF_SYSTEM.get(name)
+            tagged = sorted({v for v in (o.get("tags") or {}).values() if v})
+            derived = bool([d for d in pre_closed if d in EDGES])
+            ex.count("proof-system-driven:" + ("+".join(fams) or "none"))
+            if not o["calls"]:
+                ex.violations.append(Violation({"dev": "proving-step-drives-nothing", "name": name},
+                                               f"backend {name} ({module}): the proving step called no proof-system entry point "
+                                               f"(steps: {o.get('drive')})", rep))
+            elif want is not None and (fams != [want] or tagged != [want]):
+                ex.violations.append(Violation({"dev": "name-proof-system-mismatch", "name": name, "derived_preimported": derived, "driven": "+".join(fams),
+                                                "selected_by": "pre-import" if c["pre"] else "environment" if c["env"] in name_to_mod else "auto-detection"},
+                                               f"reported name {name} ({want}) but the proving step drove the {'+'.join(fams)} entry points "
+                                               f"({', '.join(fns[:4])}, ...) and wrote {o.get('tags')} (PYSNARK_BACKEND={c['env']}, pre-imported: {c['pre']})",
+                                               dict(rep, calls=fns, tags=o.get("tags"), drive=o.get("drive"))))
+            bad_steps = {k: v for k, v in (o.get("drive") or {}).items() if v != "ok"}
+            if bad_steps:
+                ex.violations.append(Violation({"dev": "proving-step-raises", "name": name, "step": sorted(bad_steps)[0]},
+                                               f"backend {name}: driving the proving step raised {bad_steps}", rep))
         # (c) complete interface
         if o.get("missing"):
             ex.violations.append(Violation({"dev": "incomplete-interface"}, f"backend {name} ({module}) lacks {o['missing']}", rep))
